@@ -302,6 +302,9 @@ func (c1 int64Const) unaryOp(op ast.OperatorType, typ reflect.Type) (constant, e
 func (c1 int64Const) binaryOp(op ast.OperatorType, c2 constant) (constant, error) {
 	if op == ast.OperatorLeftShift || op == ast.OperatorRightShift {
 		if err := shiftConstError(op, c2); err != nil {
+			if err == errShiftCountTooLarge && c1 == 0 {
+				return c1, nil
+			}
 			return nil, err
 		}
 		sc := uint(c2.uint64())
@@ -510,6 +513,9 @@ func (c1 intConst) unaryOp(op ast.OperatorType, typ reflect.Type) (constant, err
 func (c1 intConst) binaryOp(op ast.OperatorType, c2 constant) (constant, error) {
 	if op == ast.OperatorLeftShift || op == ast.OperatorRightShift {
 		if err := shiftConstError(op, c2); err != nil {
+			if err == errShiftCountTooLarge && c1.i.Sign() == 0 {
+				return c1, nil
+			}
 			return nil, err
 		}
 		sc := uint(c2.uint64())
